@@ -303,7 +303,9 @@ pub fn check_case(pi: usize, qi: usize, mv: &MV) -> CaseResult {
 fn battery() -> Vec<MV> {
     let s = |x: &str| MV::sym(x);
     let k = |x: &str| MV::Kw(x.to_string());
-    vec![
+    let mut all_ascii: Vec<MV> = (0x20u32..0x7f).map(MV::Char).collect();
+    all_ascii.push(MV::list((0x20u32..0x7f).map(MV::Char).collect()));
+    let mut v = vec![
         MV::Vec(vec![s("a"), s("+")]),
         MV::Vec(vec![s("a"), s("-")]),
         MV::Vec(vec![s("a"), s("...")]),
@@ -366,7 +368,10 @@ fn battery() -> Vec<MV> {
         s("t1"),
         s("a.b"),
         MV::List(vec![MV::U(1)], Box::new(MV::Vec(vec![MV::U(2)]))),
-    ]
+    ];
+    // every printable ASCII character (whichever of them a character syntax escapes)
+    v.append(&mut all_ascii);
+    v
 }
 
 fn qs_for(p: &POpt, tier: Tier, seed: u64) -> Vec<QOpt> {
